@@ -143,7 +143,8 @@ func genPlatformOpt(t *rapid.T) Opt {
 	o.Name = name
 
 	if platformNames[name] == "transport-type" {
-		o.S = rapid.SampledFrom([]string{"system", "standard", "telnet", "file"}).Draw(t, "platTT")
+		// (a definition can name a transport this library does not have: an invalid value like any other)
+		o.S = rapid.SampledFrom([]string{"system", "standard", "telnet", "file", "system", "standard", "paramiko", "bogus"}).Draw(t, "platTT")
 	}
 
 	return o
